@@ -18,7 +18,7 @@ LEVEL_TEXT = (
     "different values) x wrapper input/output renames: required and optional inputs (as sets), bound names and all returned values must equal "
     "those of the flat graph, and every inner function must receive the arguments it receives in the flat run."
 )
-LEVEL_NOTE = "reference = the library's own flat run (C01 checks flat graphs against an independent evaluator); values are provenance terms so a wrong boundary crossing changes the value"
+LEVEL_NOTE = "reference = the library's own flat run (C01 checks flat graphs against an independent evaluator); values are provenance terms so a wrong boundary crossing changes the value; also: swap renames, falsy outer bindings, option-like input names, sibling bindings, inner default selections x output renames, repeated runs with mutated (own / shared) defaults"
 RULE = "shapes x convex subsets x depth x source placement x renames x runners; distinct_nontrivial = distinct (shape, subset, depth, placement, rename) configurations"
 ASSUMPTIONS = ["an input bound on both levels uses the outer value in the flat reference (the outer binding is the later one)", "wrapper inputs are renamed only for names consumed exclusively inside the wrapped subset; outer consumers of renamed wrapper outputs are renamed consistently"]
 
